@@ -383,8 +383,14 @@ where
 
     // Iterate air builders first (fixed registration order) so that the
     // resulting AIR ordering matches the prover's non_primitive_provers order.
+    //
+    // `non_primitive_base` is a hash map: visit its entries in sorted op-type order so that a
+    // builder accepting several op types picks the same one on every call (the emitted AIR list
+    // is part of the verifying data and must not depend on the map's iteration order).
+    let mut sorted_entries: Vec<_> = non_primitive_base.iter().collect();
+    sorted_entries.sort_unstable_by(|a, b| a.0.cmp(b.0));
     for builder in non_primitive_air_builders {
-        for (op_type, prep_base) in non_primitive_base.iter() {
+        for &(op_type, prep_base) in &sorted_entries {
             // TablePacking overrides the builder's own default lane count.
             let lanes = packing
                 .npo_lanes(op_type)
